@@ -220,7 +220,9 @@ GMF_GROUPS = [(1, ""), (2, ""), (3, "b"), (6, "b"), (10, "b"), (16, ""), (25, ""
               (195, ""), (200, ""), (207, ""), (221, ""),
               # centred lattices, with and without glide / screw translations between the centring translates in the table order
               (40, ""), (41, "-cba"), (43, ""), (70, "2"), (70, "1"), (63, ""), (64, "cab"), (9, "b2"), (15, "-b1"), (15, "b3"),
-              (203, "2"), (210, ""), (227, "2"), (227, "1"), (228, "2"), (225, ""), (229, ""), (216, "")]
+              (203, "2"), (210, ""), (227, "2"), (227, "1"), (228, "2"), (225, ""), (229, ""), (216, ""),
+              # other settings of types listed above (unique axis c / a, other cell choices): same symbol, other rotations
+              (3, "c"), (3, "a"), (6, "c"), (10, "a"), (14, "c1"), (14, "a2"), (14, "b1"), (5, "c1"), (5, "a2"), (5, "b1"), (9, "c1")]
 
 
 def _rot_of(code):
@@ -291,8 +293,10 @@ def gmf_recipes(rng, count):
             continue
         if len(exp) > 40:
             continue
+        others = [c2 for (n2, c2) in rows if n2 == num and c2 != ch]
         out.append({"kind": "gmf", "Q": 32, "facets": [], "scale": pick_scale(rng),
-                    "gmf": {"number": num, "choice": ch, "records": records, "rots": rots, "recip": recip}})
+                    "gmf": {"number": num, "choice": ch, "records": records, "rots": rots, "recip": recip,
+                            "prior": rng.choice(others) if others and rng.random() < 0.7 else "none"}})
     return out
 
 
@@ -327,7 +331,19 @@ def drive_gmf(recipe):
         gm = types.SimpleNamespace(hkl=hkl.copy(), energies=np.array([r[3] / q * factor for r in g["records"]], dtype=float))
         return WulffConstruction.from_gmf_and_crystal(gm, cr)
     try:
+        if g.get("prior", "none") != "none":
+            # what the process did before: the same planes expanded for another setting of the same space-group type
+            try:
+                sg0 = SpaceGroup(g["number"], choice=g["prior"]) if g["prior"] else SpaceGroup(g["number"])
+                cr0 = Crystal(UnitCell(np.linalg.inv(M.T)), sg0, AsymmetricUnit([Element["C"]], np.array([[0.1, 0.2, 0.3]])))
+                WulffConstruction.from_gmf_and_crystal(types.SimpleNamespace(hkl=hkl.copy(), energies=np.array([r[3] / q for r in g["records"]], dtype=float)), cr0)
+            except Exception:
+                pass
         w = build(1.0)
+        try:
+            w.sht(l_max=3, scale=2.5)
+        except Exception:
+            pass
         facets = []
         for nrm, e in zip(np.asarray(w.facet_normals, dtype=float), np.asarray(w.facet_energies, dtype=float)):
             hit = None
@@ -389,6 +405,15 @@ def drive_facets(recipe, prebuilt=None):
         if not (np.array_equal(np.array(normals, dtype=float), n0) and np.array_equal(np.array(energies, dtype=float), e0)):
             t["exc"] = "ArgumentMutated"              # the caller's arrays must come back untouched
             return t
+        if not prebuilt:
+            # the shape is also asked for its spherical-harmonic form at another scale: the construction keeps its facets
+            try:
+                w.sht(l_max=3, scale=2.5)
+            except Exception:
+                pass
+            if not (np.array_equal(np.asarray(w.facet_energies, dtype=float), e0) and np.array_equal(np.asarray(w.facet_normals, dtype=float), n0)):
+                t["exc"] = "ObjectChangedByOtherUse"
+                return t
         verts = np.asarray(w.wulff_vertices, dtype=float)
         t["verts"] = [proj.point(v * q) for v in verts]
         t["lists"] = [_ints(lst) for lst in w.wulff_facets]
